@@ -154,19 +154,38 @@ pub fn check(case: &C13Case, st: &mut Stats) -> Verdict {
         strategies.push(spec.strat.clone());
     }
     let mut failure: Option<Failure> = None;
+    let mut planting_no = 0u64;
     for name in ["_sd", "..."] {
         plantings(&spec.claims, name, &case.value, &mut |desc, depth, in_array, planted| {
             if failure.is_some() {
                 return;
             }
-            for strat in &strategies {
-                let s = IssueSpec { claims: planted.clone(), strat: strat.clone(), ..spec.clone() };
+            // every second planting is tried on ONE issuer instance for all strategies, the first
+            // strategy once more at the end and in the other format: a refusal must not depend on
+            // the instance being fresh, nor on the claims differing from those just refused
+            planting_no += 1;
+            let shared = planting_no % 2 == 0;
+            let mut issuer = sut::new_issuer(spec.alg, crate::keys::KeyId::Primary);
+            let mut todo: Vec<(Strat, crate::codec::Fmt)> = strategies.iter().map(|s| (s.clone(), spec.fmt)).collect();
+            if shared {
+                let other = if spec.fmt == crate::codec::Fmt::Compact { crate::codec::Fmt::Json } else { crate::codec::Fmt::Compact };
+                todo.push((strategies[0].clone(), other));
+                todo.push((strategies[strategies.len() - 1].clone(), spec.fmt));
+            }
+            for (strat, fmt) in &todo {
+                let s = IssueSpec { claims: planted.clone(), strat: strat.clone(), fmt: *fmt, ..spec.clone() };
                 st.sub(1);
                 if depth >= 1 || in_array {
                     st.nontrivial_sub(&format!("{}|{}|{}", name, desc, strat.kind()));
                 }
                 st.label(&format!("planted={} {}", name, if in_array { "in_array" } else if depth == 0 { "top_level" } else { "nested_object" }));
-                match sut::issue(&s) {
+                let out = if shared {
+                    st.label("planted_on_a_reused_issuer");
+                    sut::issue_with(&mut issuer, &s)
+                } else {
+                    sut::issue(&s)
+                };
+                match out {
                     Out::Err(_) => {}
                     Out::Ok(issued) => {
                         failure = Some(Failure::new(
